@@ -18,7 +18,7 @@ class validate(DataStreamProcessor):
             assert isinstance(field, str), 'Field name must be a string'
             assert isfunction(validator), 'Validator must be callable'
             validator = self.row_validator(field, validator)
-            validator = self.rows_validator(validator)
+            validator = self.rows_validator(validator, field)
         elif len(args) == 1:
             validator = args[0]
             assert isfunction(validator), 'Validator must be callable'
@@ -35,12 +35,15 @@ class validate(DataStreamProcessor):
             return field_validator(row.get(field))
         return func
 
-    def rows_validator(self, row_validator):
+    def rows_validator(self, row_validator, field_name=None):
         def func(rows: ResourceWrapper):
             res_name = rows.res.name
+            # a validator of ONE field tells the handler which field is at fault
+            # (`clear` nulls that field; without a field it can only drop the row)
+            field = rows.res.schema.get_field(field_name) if field_name is not None else None
             for i, row in enumerate(rows):
                 if not row_validator(row):
-                    if not self.on_error(res_name, row, i, None, None):
+                    if not self.on_error(res_name, row, i, None, field):
                         continue
                 yield row
         return func
